@@ -27,6 +27,15 @@ ASSUMPTIONS = [
     'than 4 bytes and not zero-like',
     'Core model: flags MINIMALDATA off, NULLDUMMY/DERSIG/CLTV/CSV on; resource limits (201 opcodes, 520-byte push) are '
     'a separate static predicate; the 1000-element stack limit, P2SH/witness evaluation and CODESEPARATOR are not modelled',
+    'conditionals (agree_if_or_crash, agree_if, never_valid_when_core_rejects_structured, standard_spends_agree) are proved '
+    'for the class `structured` of Proofs/EvalIf.v: well-nested OP_IF/OP_NOTIF .. [OP_ELSE ..] OP_ENDIF blocks, at most one '
+    'OP_ELSE per OP_IF, any nesting depth, every leaf (in executed and non-executed branches alike) a command of the '
+    'straight-line fragment; agree_if carries the guard "the library does not raise IndexError", i.e. every executed '
+    'OP_IF/OP_NOTIF finds a condition item (otherwise Core fails the script: if_crash_only_where_core_fails); programs '
+    'with a second OP_ELSE, stray OP_ELSE/OP_ENDIF, or disabled/OP_VERIF opcodes in a non-executed branch are outside '
+    'the class (refutation witnesses in Properties/C19.v) and are covered by the correspondence only; programs whose '
+    'OP_IF is never closed (`open_program` of Proofs/EvalIfOpen.v: structured prefix, then a conditional without its '
+    'OP_ENDIF) are Invalid on both sides (agree_if_missing_endif, missing_endif_never_valid)',
 ]
 RULE = ('exhaustive: every opcode 0x00..0xff x every stack of <=2 (quick) / <=3 (thorough) items over the 14-item set '
         'of DESIGN.md C19; env sweeps for CLTV/CSV over threshold boundaries; CHECKSIG/CHECKMULTISIG over validity '
